@@ -546,17 +546,27 @@ def do_replay(prop, path, seed):
         return 1
     hbin = build_harness(prop)
     dbin = build_driver(prop)
+    # 1. the recorded history (implementation outputs as stored in the replay file) through the driver
+    rc, model, err = run_model(prop, dbin, obj["ops"], "quick")
+    rec_bad = [m for m in model if split3(m)[1].startswith("0")]
+    for d, m in list(zip(obj["ops"], model))[-3:]:
+        print("RECORDED:", d[:300], " ==> ", m[:300])
+    print("RECORDED: spec %s on the recorded implementation output" % ("violated (%s)" % split3(rec_bad[0])[1] if rec_bad else "not violated"))
+    # 2. live re-execution; scenario harnesses depend on the Go scheduler, so several attempts are made
     ops = [split3(l)[0] for l in obj["ops"]]
-    res = correspond(prop, hbin, dbin, ops, seed, "quick")
+    attempts = 15 if prop.harness_kind == "test" else 1
     bad = False
-    for d, m in zip(res["data"], res["model"]):
-        print(d, " ==> ", m)
-    if res["specfails"]:
-        print("REPLAY: spec still violated (%s)" % res["specfails"][0]["key"])
-        bad = True
-    if res["disagreements"]:
-        print("REPLAY: model and implementation still disagree")
-        bad = True
+    for k in range(attempts):
+        res = correspond(prop, hbin, dbin, ops, seed, "quick")
+        if res["specfails"] or res["disagreements"]:
+            for d, m in list(zip(res["data"], res["model"]))[-3:]:
+                print(d[:300], " ==> ", m[:300])
+            if res["specfails"]:
+                print("REPLAY: spec still violated (%s) on attempt %d" % (res["specfails"][0]["key"], k + 1))
+            if res["disagreements"]:
+                print("REPLAY: model and implementation still disagree")
+            bad = True
+            break
     if not bad:
-        print("REPLAY: no longer fails")
-    return 1 if bad else 0
+        print("REPLAY: no longer fails in %d live attempt(s)" % attempts)
+    return 1 if (bad or rec_bad) else 0
